@@ -1,3 +1,4 @@
+pub mod decode;
 pub mod gen;
 pub mod ledger;
 pub mod pair;
